@@ -365,7 +365,7 @@ def encode_map(tokens, sources, names, source_root=None):
     m = {"version": 3, "sources": sources, "names": names, "mappings": ';'.join(out)}
     if source_root is not None:
         m["sourceRoot"] = source_root
-    return json.dumps(m)
+    return json.dumps(m, ensure_ascii=False)  # raw UTF-8, as the Rust side writes it
 
 
 def layout_program(g):
@@ -781,7 +781,9 @@ def run_js(prop, spec, seed, tier, known, ev):
                 elif cls_default_col:
                     hit('lookup-with-column-0-resolves-to-an-earlier-mapping', dict(req, position=pos), 'node=%s expected=%s' % (got, exp))
                 else:
-                    corr.append(('js', dict(req, position=pos), {}, {'model': exp, 'real': got}))
+                    # the expectation is the lookup specification (proved equal to the binary search): a different answer
+                    # from the real module is a position resolved to the wrong original place
+                    hit('position-resolves-differently-from-the-lookup-specification', dict(req, position=pos), 'node=%s expected=%s' % (got, exp))
     # (d) capacity: every probed file answers like the most recently cached one
     cap = res.get('capacity')
     if isinstance(cap, dict) and 'error' in cap:
